@@ -162,10 +162,19 @@ def r2_validate(ctx):
             from_set = 1 in s0["args"]
             eqs = closure_calls(p, arg_slice(f, t, 1)["closures"], ("core::cmp::PartialEq::eq",))
             opt = False
+            from ..patterns import upvar_origins
             for cf, cbi, ct in eqs:
                 nm = {(callee_of(cf.term(b)) or {}).get("name") for x in range(2) for b in arg_slice(cf, ct, x)["calls"]}
                 if "options" in nm:
                     opt = True
+                # `let options = proof.options(); set.iter().any(|o| o == options)`: a captured value
+                for x in range(2):
+                    for pf, locs in upvar_origins(p, cf, arg_slice(cf, ct, x)):
+                        if pf.key == f.key:
+                            for l in locs:
+                                sl = f.backward_slice([l], at=(bi, f.INF))
+                                if "options" in {(callee_of(f.term(b)) or {}).get("name") for b in sl["calls"]} and 2 in sl["args"]:
+                                    opt = True
             ctx.ob("R2", "OptionSet-arm-membership", from_set and opt,
                    "OptionSet arm: options.iter().any(|o| o == proof.options())" if from_set and opt else
                    "OptionSet arm does not compare the set's elements with proof.options()", f, t["sp"]["at"])
